@@ -10,6 +10,7 @@ import (
 	"math"
 	"strconv"
 	"strings"
+	"sync"
 	"testing"
 
 	"github.com/uber/kraken/lib/hrw"
@@ -88,6 +89,10 @@ func c22Exec(t *verifh.T, c verifh.Case) {
 		if len(op) < 2 || op[0] != "op" {
 			return // tbl rows are regenerated, never replayed
 		}
+		if op[1] == "conc" && len(op) == 4 {
+			c22Concurrent(t, rh, cfg, op)
+			return
+		}
 		switch {
 		case op[1] == "add" && len(op) == 4:
 			label, err := verifh.Unstr(op[2])
@@ -134,6 +139,57 @@ func c22Exec(t *verifh.T, c verifh.Case) {
 		}
 	}
 	t.End()
+}
+
+// c22Concurrent: `op conc <goroutines> <calls per goroutine>`: GetOrderedNodes is a read-only query (hashring
+// calls it under a read lock from many goroutines); every concurrent answer must equal the answer of a
+// second RendezvousHash with the same nodes that is only used sequentially.
+func c22Concurrent(t *verifh.T, rh *hrw.RendezvousHash, cfg []string, op []string) {
+	g, _ := strconv.Atoi(op[2])
+	calls, _ := strconv.Atoi(op[3])
+	if g < 1 || g > 64 || calls < 1 || calls > 1000000 {
+		return
+	}
+	ref := c22New(cfg)
+	for _, n := range rh.Nodes {
+		ref.AddNode(n.Label, n.Weight)
+	}
+	var keys []string
+	want := map[string]string{}
+	for i := 0; i < 64; i++ {
+		k := fmt.Sprintf("%04x", (i*1021+7)%65536)
+		keys = append(keys, k)
+		want[k] = c22NodesTok(ref.GetOrderedNodes(k, len(ref.Nodes)))
+	}
+	var mu sync.Mutex
+	first := ""
+	var wg sync.WaitGroup
+	for w := 0; w < g; w++ {
+		wg.Add(1)
+		go func(w int) {
+			defer wg.Done()
+			for i := 0; i < calls; i++ {
+				k := keys[(i+w*7)%len(keys)]
+				var got string
+				if p := verifh.Protect(func() { got = c22NodesTok(rh.GetOrderedNodes(k, len(rh.Nodes))) }); p != "" {
+					got = "panic:" + verifh.Str(p)
+				}
+				if got != want[k] {
+					mu.Lock()
+					if first == "" {
+						first = "key=" + k + " concurrent=" + got + " sequential=" + want[k]
+					}
+					mu.Unlock()
+					return
+				}
+			}
+		}(w)
+	}
+	wg.Wait()
+	t.Op(op[1:], "ok")
+	if first != "" {
+		t.PropFail("wrong-order-concurrent", strings.Fields(first)...)
+	}
 }
 
 func c22Op(xs ...string) []string { return append([]string{"op"}, xs...) }
@@ -207,6 +263,38 @@ func c22SweepCase(r *verifh.Rand, ms []c22Node, extra c22Node, keys []string, ha
 
 func c22RandKey(r *verifh.Rand) string {
 	return hex.EncodeToString(r.Bytes(r.Intn(40)))
+}
+
+// TestVerif_C22Concurrent: concurrent read-only use of one RendezvousHash (built with -race in the thorough tier).
+func TestVerif_C22Concurrent(t *testing.T) {
+	tr := verifh.Open("hrw")
+	defer tr.Close()
+	cases, replayOnly := verifh.InputCases("hrw")
+	for _, c := range cases {
+		for _, o := range c.Ops {
+			if len(o) > 1 && o[1] == "conc" {
+				c22Exec(tr, c)
+				break
+			}
+		}
+	}
+	if replayOnly {
+		return
+	}
+	r := verifh.NewRand(verifh.Seed(), "c22conc")
+	for i := 0; i < verifh.Scale(6, 40); i++ {
+		hashCfg := "hash=murmur"
+		if i%3 == 2 {
+			hashCfg = "hash=sha256"
+		}
+		c := verifh.Case{Cfg: []string{hashCfg}}
+		for _, n := range c22Membership(r, 2+r.Intn(9)) {
+			c.Ops = append(c.Ops, c22Add(n))
+		}
+		c.Ops = append(c.Ops, c22Op("conc", "8", strconv.Itoa(verifh.Scale(1500, 6000))), c22Op("nodes"))
+		c22Exec(tr, c)
+		tr.Count("concurrent_cases", 1)
+	}
 }
 
 func TestVerif_C22(t *testing.T) {
